@@ -99,6 +99,8 @@ LABELINGS = {
     # non-ASCII string ids (encodable in latin-1 / cp1252 as well as utf-8)
     "uni": lambda: Labeling("uni", lambda i: ["zo\u00e9", "j\u00fcrgen", "\u00f1u", "\u00e5sa", "caf\u00e9-%d" % i][min(i, 5) - 1] if i < 5 else "caf\u00e9-%d" % i, shift=2),
     "mixed": lambda: Labeling("mixed", _mixed, shift=5, swap_undirected=True),
+    # string ids containing (and ending with) the character the temporal DAG uses to join node and instant
+    "under": lambda: Labeling("under", lambda i: ["n_%d", "a_b_%d_", "_%d", "x__%d"][i % 4] % i, shift=1),
 }
 
 
